@@ -128,6 +128,11 @@ INP_LOOP = (
     "if new_file_hash.is_unknown: messages.append(f'Input vanished unexpectedly: {path}') "
     "else: messages.append(f'Input changed unexpectedly: {path} ' + fmt_file_hash_diff(old_file_hash, new_file_hash)) "
     "elif old_file_hash.is_unknown: raise ConsistencyError('A step was scheduled with a missing input file.')")
+# the loop with the proposed fix of findings.d/C03-unreadable-input (an input that is no longer a
+# readable regular file is reported as changed instead of failing the whole computation): the
+# decision for readable files and missing paths -- what the model covers -- is the same
+INP_LOOP_UNREADABLE_REPORTED = (
+    "for path in sorted(inp_hashes): old_file_hash = inp_hashes[path] try: new_file_hash = old_file_hash.refreshed(path, cancel_event) except (HashFailedError, OSError) as exc: unreadable = str(exc) new_file_hash = FileHash.unknown() else: unreadable = None all_inp_hashes[path] = new_file_hash if new_file_hash != old_file_hash: new_inp_hashes[path] = new_file_hash if unreadable is not None: messages.append(f'Input changed unexpectedly: {path} ({unreadable})') elif new_file_hash.is_unknown: messages.append(f'Input vanished unexpectedly: {path}') else: messages.append(f'Input changed unexpectedly: {path} ' + fmt_file_hash_diff(old_file_hash, new_file_hash)) elif old_file_hash.is_unknown: raise ConsistencyError('A step was scheduled with a missing input file.')")
 OUT_LOOP = (
     "for path in sorted(out_hashes): old_file_hash = out_hashes[path] "
     "new_file_hash = old_file_hash.refreshed(path, cancel_event) all_out_hashes[path] = new_file_hash "
@@ -140,6 +145,9 @@ def _loops(tree):
     got = [_norm(s) for s in body_without_docstring(f)]
     exp = ["messages = []", "new_inp_hashes = {}", "all_inp_hashes = {}", INP_LOOP,
            "return HashComputeResult(messages, new_inp_hashes, all_inp_hashes)"]
+    unreadable_reported = len(got) == 5 and got[3] == INP_LOOP_UNREADABLE_REPORTED
+    if unreadable_reported:
+        got = got[:3] + [INP_LOOP] + got[4:]
     if got != exp:
         raise TranslatorError("hash.compute_inp_hashes is not the reviewed loop: " + " | ".join(got)[:400])
     f = find_function(tree, "compute_out_hashes")
@@ -156,6 +164,7 @@ def _loops(tree):
     names = [s.target.id for s in cls.body if isinstance(s, ast.AnnAssign)]
     if names != ["messages", "new_hashes", "all_hashes"]:
         raise TranslatorError(f"HashComputeResult fields changed: {names}")
+    return unreadable_reported
 
 
 def _users():
@@ -203,7 +212,7 @@ def _users():
 def generate():
     tree = parse_module(f"{CORE}/hash.py")
     fh = _filehash(tree)
-    _loops(tree)
+    unreadable_reported = _loops(tree)
     _users()
     out = [
         "(* GENERATED by translator/gen_fresh_stat.py from /repo/stepup/core/hash.py -- do not edit *)",
@@ -241,6 +250,9 @@ def generate():
         "  existsb (fun e => fst (fst e)) entries.",
         "Definition inputs_reported_gen (entries : list (bool * N * bool)) : bool :=",
         "  existsb (fun e => negb (snd (fst e) =? 0)) entries.",
+        "(* compute_inp_hashes reports an input that is no longer a readable regular file as changed",
+        "   (true) or lets the exception fail the whole hash computation: step FAILED, no drain (false) *)",
+        "Definition unreadable_input_reported : bool := " + ("true" if unreadable_reported else "false") + ".",
         "",
     ]
     facts = {"refreshed_shortcut": fh["pairs"], "eq_fields": fh["eq_fields"], "build": fh["build"]}
